@@ -52,7 +52,10 @@ def fault_cases(base, rng, max_pos):
     if len(positions) > max_pos:
         positions = sorted(rng.shuffle(positions)[:max_pos])
     # (dump and cat are for the model tie of the failed-append cases: index, counters and file bytes in the running process)
-    tail = [("get", k) for k in keys] + [("dump",), ("cat",), ("reopen",)] + [("get", k) for k in keys]
+    # ... and a second life: one more acknowledged set after the restart must survive one more restart (seed C20-J: a stray hint
+    # file left by a failed create, whose id the next session's active file takes, only shows then)
+    tail = [("get", k) for k in keys] + [("dump",), ("cat",), ("reopen",)] + [("get", k) for k in keys] + \
+           [("set", b"zz2", b"second-life"), ("reopen",), ("get", b"zz2")] + [("get", k) for k in keys]
     for p in positions:
         c = S.Case("%s-f%d" % (base.name, p), base.cfg, [("failat", p)] + list(base.ops) + tail)
         c.base, c.pos, c.keys = base, p, keys
